@@ -31,7 +31,7 @@ import (
 
 // AllKinds is the full action alphabet (per user), simplest first.
 var AllKinds = []string{"new", "comment", "title", "status", "label", "editcomment", "twoedits", "commentlast", "setmeta",
-	"idmutate", "idsetmeta", "push", "pull", "remove", "resolveall", "reopen", "stage",
+	"idmutate", "idsetmeta", "push", "pull", "remove", "resolveall", "reopen", "stage", "stagelast",
 	// identity-history actions (property C09 through the cache): a mutation of the own identity left
 	// uncommitted, its commit, and a committed mutation of the OTHER user's identity (the same identity
 	// edited on two replicas)
@@ -366,7 +366,7 @@ func (m *model) Actions() []string {
 				if first == "" {
 					continue
 				}
-			case "commentlast":
+			case "commentlast", "stagelast":
 				if last == "" || last == first {
 					continue
 				}
@@ -534,6 +534,17 @@ func (m *model) apply(k, x string) (string, []xstate.Violation, error) {
 		m.nEdit[x]++
 		b, _, err := c.Bugs().New(fmt.Sprintf("fresh %s%d delta", x, n), "fresh message kiwi")
 		if err != nil {
+			// a refused creation is an outcome; a creation that failed AFTER the bug reached git leaves
+			// a bug the cache does not list (seen at once here, also while other bugs have pending
+			// operations and the live/rebuilt comparison is suspended)
+			refs, _ := m.w.Repos[x].ListRefs("refs/bugs/")
+			for _, r := range refs {
+				id := entity.Id(r[strings.LastIndex(r, "/")+1:])
+				if _, rerr := c.Bugs().ResolveExcerpt(id); rerr != nil {
+					return errTag(err), []xstate.Violation{{Oracle: "c11.coherent", Sig: "bug-in-git-without-excerpt/after-failed-new",
+						Detail: fmt.Sprintf("user %s: Bugs().New failed with %q, yet bug %s is in git and the live cache has no excerpt for it", x, err, id)}}, nil
+				}
+			}
 			return errTag(err), nil, nil
 		}
 		m.order = append(m.order, b.Id())
@@ -624,10 +635,15 @@ func (m *model) apply(k, x string) (string, []xstate.Violation, error) {
 			return "commit-" + errTag(err), nil, nil
 		}
 		return "ok", m.ackCheck(x, k, first, []entity.Id{op.Id()}), nil
-	case "stage":
+	case "stage", "stagelast":
 		// an operation is added and NOT committed (what a front end staging several operations, or a
-		// bridge importer, does); it stays pending on the loaded instance across the following actions
+		// bridge importer, does); it stays pending on the loaded instance across the following actions.
+		// stagelast does it on the last bug, so that two loaded bugs can have pending operations at once
+		// (a sub-cache of two slots is then full of entities that must not be evicted).
 		m.nEdit[x]++
+		if k == "stagelast" {
+			first = last
+		}
 		m.note(x, fmt.Sprintf("stage%d", m.idx(first)))
 		b, err := c.Bugs().Resolve(first)
 		if err != nil {
